@@ -54,6 +54,7 @@ func c13Ops() []c13Op {
 		{name: "dns rw2.test (a $badfilter pair among the rewrites)", query: d("rw2.test", 1, "", ""), slot: 6},
 		{name: "dns TXT 1.2.3.4 (an address as host name, $denyallow rule)", query: d("1.2.3.4", 16, "", ""), slot: -1},
 		{name: "dns TXT blocked.test ($denyallow rule)", query: d("blocked.test", 16, "", ""), slot: -1},
+		{name: "dns EXAMPLE.org (the name of another query in another letter case)", query: d("EXAMPLE.org", 1, "", ""), slot: -1},
 		{name: "dns blocked.test anonymous", query: d("blocked.test", 1, "", ""), slot: -1},
 		{name: "dns tagged.test A no tags", query: d("tagged.test", 1, "", ""), slot: -1},
 		{name: "netall example.org/ads from example.org", query: q("netall", "http://example.org/ads?u=example.org", "http://example.org/", rules.TypeScript), slot: -1},
@@ -332,10 +333,16 @@ func init() {
 				c.Run.Sample(map[string]any{"history": []string{ops[3].name, ops[len(ops)-6].name, ops[3].name, ops[len(ops)-5].name}})
 			}
 		}
-		fix := true
+		fix, complete := true, true
 		for _, s := range statsOut {
 			if f, _ := s["fixpoint"].(bool); !f {
 				fix = false
+			}
+			if d, _ := s["deadline_hit"].(bool); d {
+				complete = false
+			}
+			if d, _ := s["non_dedup_deadline_hit"].(bool); d {
+				complete = false
 			}
 		}
 		c.Run.Set("per_backing", statsOut)
@@ -344,7 +351,15 @@ func init() {
 		c.Run.Set("traces_validated_against_impl", total.Transitions)
 		c.Run.Set("max_depth", int64(total.MaxDepth))
 		c.Run.Set("fixpoint", fix)
-		c.Run.Set("exhaustive", fix)
+		// exhaustive: every history within the stated depth bound was explored (no
+		// deadline hit); fixpoint: the frontier became empty, i.e. every history of
+		// any length is covered
+		c.Run.Set("exhaustive", complete)
+		if !c.Thorough() {
+			c.Run.Set("depth_bound", "5 (String-backed), 4 (File-backed)")
+		} else {
+			c.Run.Set("depth_bound", "none (until the frontier is empty or the deadline)")
+		}
 		c.Run.Set("operations", int64(len(ops)))
 		c.Run.Set("explanation", "every transition is executed on the real engines (history replayed on fresh engines plus one operation); states are canonical keys of cache contents, per-rule pattern states, pool contents and held result objects")
 		c.Run.Assumption("the canonical key covers all mutable state reachable from an engine after construction (rule cache, lazily compiled pattern + invalid flag, request pool); the non-de-duplicated guard pass covers every history up to its depth regardless of the key")
